@@ -3,8 +3,8 @@ import itertools
 import random
 
 VARS = {
-    "str": ["S", "A", "B", "C", "D", "E", "F", "G", "H", "I", "J", "K", "L", "M"],
-    "int": list(range(16)),
+    "str": ["S", "A", "B", "C", "D", "E", "F", "G", "H", "I", "J", "K", "L", "M"] + ["N%d" % i for i in range(14, 60)],
+    "int": list(range(1300)),
     "clash": ["S", "a", "B", "b", "C"],                       # a variable and a terminal share a value
     "reserved": ["S", "a#CNF#", "C#CNF#1", "S#SUBS#0", "#STARTUNION#"],
     "lower": ["s", "np", "vp", "x1", "y", "zed"],
@@ -99,6 +99,45 @@ def large_case(rng, vcs=("str", "int")):
     if rng.random() < 0.5:
         c["shuffle"] = rng.randrange(1 << 30)
     return c
+
+
+def wide_case(rng):
+    """forty variables, each heading a non-empty production; the start symbol derives the empty word only through a
+    non-empty production"""
+    nv = rng.randint(36, 44)
+    prods = [[0, [["V", 1], ["V", 2]]]]
+    for v in range(1, nv):
+        nxt = v + 1 if v + 1 < nv else 1
+        prods.append([v, [["T", v % 2], ["V", nxt]] if v % 3 else [["V", nxt], ["T", v % 2]]])
+        if v < 12 or rng.random() < 0.3:
+            prods.append([v, []])
+    c = {"nv": nv, "nt": 2, "start": 0, "prods": prods, "vc": rng.choice(["str", "int"]), "large": True, "wide": True}
+    if rng.random() < 0.5:
+        c["shuffle"] = rng.randrange(1 << 30)
+    return c
+
+
+def long_chain_case(n=1200):
+    """V0 -> a V1 | b, V1 -> a V2 | b, ... : a chain of n variables reachable only through one another"""
+    prods = []
+    for v in range(n):
+        if v + 1 < n:
+            prods.append([v, [["T", 0], ["V", v + 1]]])
+        prods.append([v, [["T", 1]]])
+    return {"nv": n, "nt": 2, "start": 0, "prods": prods, "vc": "int", "large": True, "chain": True}
+
+
+def long_body_case(rng):
+    """one body of twelve to fourteen symbols (ten or more helper variables in the normal form)"""
+    n = rng.randint(12, 14)
+    body = [["T", i % 3] if i % 4 else ["V", 1] for i in range(n)]
+    prods = [[0, body], [1, [["T", 0]]], [1, [["T", 1], ["T", 2]]], [0, [["T", 2], ["V", 0], ["T", 1]]]]
+    w1 = [x[1] if x[0] == "T" else 0 for x in body]
+    w2 = []
+    for x in body:
+        w2.extend([x[1]] if x[0] == "T" else [1, 2])
+    return {"nv": 2, "nt": 3, "start": 0, "prods": prods, "vc": rng.choice(["str", "int"]), "large": True, "longbody": True,
+            "long_words": [w1, w2, [2] + w1 + [1], w1[:-1], [2] + w1]}
 
 
 def two_route_case(rng):
